@@ -23,8 +23,10 @@ use crate::report::{Report, Violation};
 use crate::trace::Trace;
 use crate::{vt, Args};
 
-pub const COOKIE: &str = "the-real-cookie";
-pub const WRONG_COOKIE: &str = "not-the-cookie";
+// long cookies that differ only in their tail: whatever the digest construction does with its input (buffers, blocks), a
+// peer holding the wrong one must not pass
+pub const COOKIE: &str = "cookie-0123456789abcdefghijklmnopqrstuvwxyz-0123456789abcdefghijklmnopqrstuvwxyz-REAL-tail";
+pub const WRONG_COOKIE: &str = "cookie-0123456789abcdefghijklmnopqrstuvwxyz-0123456789abcdefghijklmnopqrstuvwxyz-FAKE-tail";
 
 fn amsg(m: auth::authentication_message::Msg) -> auth::AuthenticationMessage {
     auth::AuthenticationMessage { msg: Some(m) }
